@@ -38,6 +38,8 @@ def cases(draw):
         "instant": draw(common.instants()),
         "decimals": draw(st.integers(3, 6)),
         "vseed": draw(st.integers(0, 2**32 - 1)),
+        # the scene centre may lie some minutes after the other fields' instant (next day / year)
+        "leader": {"scene_center_offset_ms": draw(st.sampled_from([0, 0, 600_000]))},
     }
 
 
@@ -117,6 +119,8 @@ def run_case(case):
                 out.append(harness.disc("value", where, "a datetime", value))
                 continue
             want = instant_ns(inst, res)
+            if where.endswith("@scene_center_time"):
+                want = want + np.timedelta64(case.get("leader", {}).get("scene_center_offset_ms", 0), "ms")
             if got != want:
                 delta = model.delta_ns(got, want)
                 out.append(harness.disc("value", where, want, got, delta_ns=delta, all_deltas_ns=[delta]))
